@@ -84,6 +84,12 @@ type Engine interface {
 	Describe() EngineInfo
 }
 
+// Texter is implemented by engines whose scenarios have a human-readable form
+// (the generated Python program); it is stored in replay files.
+type Texter interface {
+	Text(sc interface{}) string
+}
+
 type EngineInfo struct {
 	Rule        string   `json:"rule"`
 	Real        []string `json:"real_components"`
@@ -120,6 +126,7 @@ type Replay struct {
 	Violation Violation        `json:"violation"`
 	LogHash   string           `json:"log_hash"`
 	Trace     []string         `json:"trace,omitempty"`
+	Program   []string         `json:"program,omitempty"` // the scenario rendered as source text, line by line
 	Note      string           `json:"note,omitempty"`
 }
 
